@@ -202,6 +202,8 @@ Cases ==
          {XP("torsion", 0, p) : p \in (SubPts \cup {<<0, 0>>, <<0, P - 1>>, <<1, 0>>, <<3, 5>>})}
     [] Family = "torsion-all" ->
          {XP("torsion", 0, p) : p \in F \X F}
+    [] Family = "torsion-lines" ->   \* every point of the curve (all orders) and the two lines through the identity
+         {XP("torsion", 0, p) : p \in CurvePts \cup {p \in F \X F : p[1] = 0 \/ p[2] = 1}}
     [] Family = "fixed" ->
          {XP("fixed", x, p) : x \in AllX, p \in SubPts \ {<<0, 1>>}}
 
